@@ -47,7 +47,7 @@ SAN_ENV = {
                     "allocator_may_return_null=1:handle_segv=1:symbolize=1",
     "UBSAN_OPTIONS": "print_stacktrace=1:halt_on_error=1:exitcode=87",
     "MSAN_OPTIONS": "exitcode=88",
-    "TSAN_OPTIONS": "halt_on_error=0:exitcode=0:report_signal_unsafe=0",
+    "TSAN_OPTIONS": "halt_on_error=0:exitcode=0:report_signal_unsafe=0:history_size=7",
     "ASAN_SYMBOLIZER_PATH": "/usr/bin/llvm-symbolizer-14",
     "MSAN_SYMBOLIZER_PATH": "/usr/bin/llvm-symbolizer-14",
 }
